@@ -38,10 +38,13 @@ Qed.
 Lemma dmk_blank : dmk 32 = false. Proof. reflexivity. Qed.
 
 (* no keyword of a recognised handler contains one of the six characters *)
-Definition cond_keywords (c : hcond) : list bytes := match c with CIn kw | CInSpace kw => kw | _ => [] end.
+Definition cond_keywords (c : hcond) : list bytes := match c with CIn kw | CInSpace kw | CExact kw => kw | _ => [] end.
+Definition cond_sep_ok (c : hcond) : bool := match c with CRec sep _ _ => negb (dmk sep) | _ => true end.
 Definition clean_word (k : bytes) : bool := forallb (fun c => negb (dmk c)) k.
 Lemma handler_keywords_clean :
   forallb (fun h => forallb (fun c => forallb clean_word (cond_keywords c)) (snd h)) css_handler_defs = true.
+Proof. vm_compute. reflexivity. Qed.
+Lemma handler_separators_unmarked : forallb (fun h => forallb cond_sep_ok (snd h)) css_handler_defs = true.
 Proof. vm_compute. reflexivity. Qed.
 Lemma forallb_D_nil k : clean_word k = true -> D dmk k = [].
 Proof.
@@ -60,7 +63,7 @@ Proof. vm_compute. reflexivity. Qed.
 Definition handler_entries : nat :=
   List.length (filter (fun e => existsb (fun h => String.eqb (fst h) (snd e)) css_handler_defs) default_style_handlers).
 (* 157 of the 213 entries, 122 functions on the pinned tree; stated as a lower bound so that adding handlers does not break it *)
-Lemma handler_coverage : Nat.leb 150 handler_entries = true.
+Lemma handler_coverage_recognised : Nat.leb 150 handler_entries = true.
 Proof. vm_compute. reflexivity. Qed.
 
 Theorem cin_clean kw v : forallb clean_word kw = true -> kw_handler kw v = true -> Forall (fun c => cs_mem c danger_cset = false) v.
